@@ -1097,6 +1097,94 @@ def handPortedLiterals : List (String × List String × List String) := [
   ("special_el3.el3", ["10"], ["<"]),
   ("special_el3.el3_angle", ["8", "10", "10", "10", "10"], ["<=", "<", ">=", ">", "!=", ">", "<", ">", "<"])]
 
+def specialCallDeps : List (String × String × List String) := [
+  ("Hr_zk_case115", "ellipeinc", ["phi_bar_j", "r", "r_bar_i", "r_i"]),
+  ("Hr_zk_case115", "ellipkinc", ["phi_bar_j", "r", "r_bar_i", "r_i"]),
+  ("Hz_ri_case115", "ellipeinc", ["phi_bar_j", "r", "r_bar_i", "r_i"]),
+  ("Hz_ri_case115", "ellipkinc", ["phi_bar_j", "r", "r_bar_i", "r_i"]),
+  ("Hr_zk_case125", "ellipeinc", ["phi_bar_j", "r", "r_bar_i", "r_i"]),
+  ("Hr_zk_case125", "ellipkinc", ["phi_bar_j", "r", "r_bar_i", "r_i"]),
+  ("Hz_ri_case125", "ellipeinc", ["phi_bar_j", "r", "r_bar_i", "r_i"]),
+  ("Hz_ri_case125", "ellipkinc", ["phi_bar_j", "r", "r_bar_i", "r_i"]),
+  ("Hr_zk_case135", "ellipeinc", ["phi_bar_j", "r", "r_bar_i", "r_i"]),
+  ("Hr_zk_case135", "ellipkinc", ["phi_bar_j", "r", "r_bar_i", "r_i"]),
+  ("Hz_ri_case135", "ellipeinc", ["phi_bar_j", "r", "r_bar_i", "r_i"]),
+  ("Hz_ri_case135", "ellipkinc", ["phi_bar_j", "r", "r_bar_i", "r_i"]),
+  ("Hr_ri_case214", "ellipeinc", ["phi_bar_j", "r", "z_bar_k"]),
+  ("Hr_ri_case214", "ellipkinc", ["phi_bar_j", "r", "z_bar_k"]),
+  ("Hr_zk_case214", "ellipeinc", ["phi_bar_j", "r", "z_bar_k"]),
+  ("Hr_zk_case214", "ellipkinc", ["phi_bar_j", "r", "z_bar_k"]),
+  ("Hr_zk_case214", "el3angle", ["phi_bar_j", "r", "z_bar_k"]),
+  ("Hr_zk_case214", "el3angle", ["phi_bar_j", "r", "z_bar_k"]),
+  ("Hphi_ri_case214", "ellipeinc", ["phi_bar_j", "r", "z_bar_k"]),
+  ("Hphi_ri_case214", "ellipkinc", ["phi_bar_j", "r", "z_bar_k"]),
+  ("Hz_ri_case214", "ellipeinc", ["phi_bar_j", "r", "z_bar_k"]),
+  ("Hz_ri_case214", "ellipkinc", ["phi_bar_j", "r", "z_bar_k"]),
+  ("Hz_zk_case214", "el3angle", ["phi_bar_j", "r", "z_bar_k"]),
+  ("Hr_ri_case215", "ellipeinc", ["phi_bar_j", "r", "r_bar_i", "r_i", "z_bar_k"]),
+  ("Hr_ri_case215", "ellipkinc", ["phi_bar_j", "r", "r_bar_i", "r_i", "z_bar_k"]),
+  ("Hr_ri_case215", "el3angle", ["phi_bar_j", "r", "r_bar_i", "r_i", "z_bar_k"]),
+  ("Hr_zk_case215", "ellipeinc", ["phi_bar_j", "r", "r_bar_i", "r_i", "z_bar_k"]),
+  ("Hr_zk_case215", "ellipkinc", ["phi_bar_j", "r", "r_bar_i", "r_i", "z_bar_k"]),
+  ("Hr_zk_case215", "el3angle", ["phi_bar_j", "r", "r_bar_i", "r_i", "z_bar_k"]),
+  ("Hr_zk_case215", "el3angle", ["phi_bar_j", "r", "r_bar_i", "r_i", "z_bar_k"]),
+  ("Hphi_ri_case215", "ellipeinc", ["phi_bar_j", "r", "r_bar_i", "r_i", "z_bar_k"]),
+  ("Hphi_ri_case215", "ellipkinc", ["phi_bar_j", "r", "r_bar_i", "r_i", "z_bar_k"]),
+  ("Hphi_ri_case215", "el3angle", ["phi_bar_j", "r", "r_bar_i", "r_i", "z_bar_k"]),
+  ("Hz_ri_case215", "ellipeinc", ["phi_bar_j", "r", "r_bar_i", "r_i", "z_bar_k"]),
+  ("Hz_ri_case215", "ellipkinc", ["phi_bar_j", "r", "r_bar_i", "r_i", "z_bar_k"]),
+  ("Hz_zk_case215", "el3angle", ["phi_bar_j", "r", "r_bar_i", "r_i", "z_bar_k"]),
+  ("Hr_ri_case224", "ellipeinc", ["phi_bar_j", "r", "z_bar_k"]),
+  ("Hr_ri_case224", "ellipkinc", ["phi_bar_j", "r", "z_bar_k"]),
+  ("Hr_zk_case224", "ellipeinc", ["phi_bar_j", "r", "z_bar_k"]),
+  ("Hr_zk_case224", "ellipkinc", ["phi_bar_j", "r", "z_bar_k"]),
+  ("Hr_zk_case224", "el3angle", ["phi_bar_j", "r", "z_bar_k"]),
+  ("Hr_zk_case224", "el3angle", ["phi_bar_j", "r", "z_bar_k"]),
+  ("Hphi_ri_case224", "ellipeinc", ["phi_bar_j", "r", "z_bar_k"]),
+  ("Hphi_ri_case224", "ellipkinc", ["phi_bar_j", "r", "z_bar_k"]),
+  ("Hz_ri_case224", "ellipeinc", ["phi_bar_j", "r", "z_bar_k"]),
+  ("Hz_ri_case224", "ellipkinc", ["phi_bar_j", "r", "z_bar_k"]),
+  ("Hz_zk_case224", "el3angle", ["phi_bar_j", "r", "z_bar_k"]),
+  ("Hr_ri_case225", "ellipeinc", ["phi_bar_j", "r", "r_bar_i", "r_i", "z_bar_k"]),
+  ("Hr_ri_case225", "ellipkinc", ["phi_bar_j", "r", "r_bar_i", "r_i", "z_bar_k"]),
+  ("Hr_ri_case225", "el3angle", ["phi_bar_j", "r", "r_bar_i", "r_i", "z_bar_k"]),
+  ("Hr_zk_case225", "ellipeinc", ["phi_bar_j", "r", "r_bar_i", "r_i", "z_bar_k"]),
+  ("Hr_zk_case225", "ellipkinc", ["phi_bar_j", "r", "r_bar_i", "r_i", "z_bar_k"]),
+  ("Hr_zk_case225", "el3angle", ["phi_bar_j", "r", "r_bar_i", "r_i", "z_bar_k"]),
+  ("Hr_zk_case225", "el3angle", ["phi_bar_j", "r", "r_bar_i", "r_i", "z_bar_k"]),
+  ("Hphi_ri_case225", "ellipeinc", ["phi_bar_j", "r", "r_bar_i", "r_i", "z_bar_k"]),
+  ("Hphi_ri_case225", "ellipkinc", ["phi_bar_j", "r", "r_bar_i", "r_i", "z_bar_k"]),
+  ("Hphi_ri_case225", "el3angle", ["phi_bar_j", "r", "r_bar_i", "r_i", "z_bar_k"]),
+  ("Hz_ri_case225", "ellipeinc", ["phi_bar_j", "r", "r_bar_i", "r_i", "z_bar_k"]),
+  ("Hz_ri_case225", "ellipkinc", ["phi_bar_j", "r", "r_bar_i", "r_i", "z_bar_k"]),
+  ("Hz_zk_case225", "el3angle", ["phi_bar_j", "r", "r_bar_i", "r_i", "z_bar_k"]),
+  ("Hr_ri_case234", "ellipeinc", ["phi_bar_j", "r", "z_bar_k"]),
+  ("Hr_ri_case234", "ellipkinc", ["phi_bar_j", "r", "z_bar_k"]),
+  ("Hr_zk_case234", "ellipeinc", ["phi_bar_j", "r", "z_bar_k"]),
+  ("Hr_zk_case234", "ellipkinc", ["phi_bar_j", "r", "z_bar_k"]),
+  ("Hr_zk_case234", "el3angle", ["phi_bar_j", "r", "z_bar_k"]),
+  ("Hr_zk_case234", "el3angle", ["phi_bar_j", "r", "z_bar_k"]),
+  ("Hphi_ri_case234", "ellipeinc", ["phi_bar_j", "r", "z_bar_k"]),
+  ("Hphi_ri_case234", "ellipkinc", ["phi_bar_j", "r", "z_bar_k"]),
+  ("Hz_ri_case234", "ellipeinc", ["phi_bar_j", "r", "z_bar_k"]),
+  ("Hz_ri_case234", "ellipkinc", ["phi_bar_j", "r", "z_bar_k"]),
+  ("Hz_zk_case234", "el3angle", ["phi_bar_j", "r", "z_bar_k"]),
+  ("Hr_ri_case235", "ellipeinc", ["phi_bar_j", "r", "r_bar_i", "r_i", "z_bar_k"]),
+  ("Hr_ri_case235", "ellipkinc", ["phi_bar_j", "r", "r_bar_i", "r_i", "z_bar_k"]),
+  ("Hr_ri_case235", "el3angle", ["phi_bar_j", "r", "r_bar_i", "r_i", "z_bar_k"]),
+  ("Hr_zk_case235", "ellipeinc", ["phi_bar_j", "r", "r_bar_i", "r_i", "z_bar_k"]),
+  ("Hr_zk_case235", "ellipkinc", ["phi_bar_j", "r", "r_bar_i", "r_i", "z_bar_k"]),
+  ("Hr_zk_case235", "el3angle", ["phi_bar_j", "r", "r_bar_i", "r_i", "z_bar_k"]),
+  ("Hr_zk_case235", "el3angle", ["phi_bar_j", "r", "r_bar_i", "r_i", "z_bar_k"]),
+  ("Hphi_ri_case235", "ellipeinc", ["phi_bar_j", "r", "r_bar_i", "r_i", "z_bar_k"]),
+  ("Hphi_ri_case235", "ellipkinc", ["phi_bar_j", "r", "r_bar_i", "r_i", "z_bar_k"]),
+  ("Hphi_ri_case235", "el3angle", ["phi_bar_j", "r", "r_bar_i", "r_i", "z_bar_k"]),
+  ("Hz_ri_case235", "ellipeinc", ["phi_bar_j", "r", "r_bar_i", "r_i", "z_bar_k"]),
+  ("Hz_ri_case235", "ellipkinc", ["phi_bar_j", "r", "r_bar_i", "r_i", "z_bar_k"]),
+  ("Hz_zk_case235", "el3angle", ["phi_bar_j", "r", "r_bar_i", "r_i", "z_bar_k"])]
+
+def magArgOffences : List (String × String) := []
+
 /-! the regenerated definitions are the frozen model's, definition by definition -/
 theorem sync_arctan_k_tan_2 : @arctan_k_tan_2 = @MagpyVerif.Kern.CylSeg.arctan_k_tan_2 := rfl
 theorem sync_close : @close = @MagpyVerif.Kern.CylSeg.close := rfl
@@ -1262,5 +1350,7 @@ theorem sync_caseDispatch : @caseDispatch = @MagpyVerif.Kern.CylSeg.caseDispatch
 theorem sync_plusIdx : @plusIdx = @MagpyVerif.Kern.CylSeg.plusIdx := rfl
 theorem sync_minusIdx : @minusIdx = @MagpyVerif.Kern.CylSeg.minusIdx := rfl
 theorem sync_handPortedLiterals : @handPortedLiterals = @MagpyVerif.Kern.CylSeg.handPortedLiterals := rfl
+theorem sync_specialCallDeps : @specialCallDeps = @MagpyVerif.Kern.CylSeg.specialCallDeps := rfl
+theorem sync_magArgOffences : @magArgOffences = @MagpyVerif.Kern.CylSeg.magArgOffences := rfl
 
 end MagpyVerif.Gen.CylSeg
